@@ -115,11 +115,19 @@ type sessRec struct {
 	B0    int64     `json:"b0"`
 	Lines []lineRec `json:"lines"`
 	Name  string    `json:"name"`
+	// NoWindow: unaccounted lines were written in between, the window bound does not apply to this record
+	NoWindow bool `json:"nowindow"`
 }
 
 // timed runs one session: nlines lines of the given lengths, the penalty preset
 // to b0, gaps between the sends; all times in microseconds since the start.
 func timed(name string, floodOff bool, b0 time.Duration, lens []int, gaps []time.Duration, toggle bool) (*sessRec, error) {
+	return timedOff(name, floodOff, b0, lens, gaps, toggle, nil)
+}
+
+// timedOff: the lines whose index is in off are sent while Config.Flood is set (protection off); the
+// session record then holds only the accounted lines (in order), whose arithmetic must still be the rule's.
+func timedOff(name string, floodOff bool, b0 time.Duration, lens []int, gaps []time.Duration, toggle bool, off map[int]bool) (*sessRec, error) {
 	var mu sync.Mutex
 	type rl struct {
 		chars          int
@@ -159,6 +167,14 @@ func timed(name string, floodOff bool, b0 time.Duration, lens []int, gaps []time
 			s.Sync(30 * time.Second)
 			s.Cfg.Flood = !s.Cfg.Flood
 		}
+		if off != nil && (off[i] != s.Cfg.Flood) {
+			// wait until everything issued so far has been written, then switch
+			dl := time.Now().Add(60 * time.Second)
+			for len(s.Srv.Writes())-base < i && time.Now().Before(dl) {
+				time.Sleep(time.Millisecond)
+			}
+			s.Cfg.Flood = off[i]
+		}
 		line := "PRIVMSG #c :" + strings.Repeat("x", n)
 		if n < 12 {
 			line = strings.Repeat("Z", n)
@@ -179,6 +195,27 @@ func timed(name string, floodOff bool, b0 time.Duration, lens []int, gaps []time
 	defer mu.Unlock()
 	if toggle {
 		return nil, nil // toggling sessions are only checked for completion
+	}
+	if off != nil {
+		// accounted lines only: match the accounting events to the protected lines in order
+		k := 0
+		for i := 0; i < want; i++ {
+			if off[i] {
+				if d := ws[i].At.Sub(issued[i]); d > time.Second {
+					return nil, fmt.Errorf("a line sent with protection off was delayed by %v", d)
+				}
+				continue
+			}
+			if k >= len(rls) {
+				return nil, fmt.Errorf("no accounting event for protected line %d", i)
+			}
+			lr := lineRec{Chars: len(ws[i].Data) - 2, W: ws[i].At.Sub(t0).Microseconds(), Issued: issued[i].Sub(t0).Microseconds(),
+				Elapsed: rls[k].elapsed.Microseconds(), Badness: rls[k].badns.Microseconds(), Rl: rls[k].at.Sub(t0).Microseconds()}
+			k++
+			rec.Lines = append(rec.Lines, lr)
+		}
+		rec.NoWindow = true
+		return rec, nil
 	}
 	if !floodOff && len(rls) < want {
 		return nil, fmt.Errorf("%d accounting events for %d lines", len(rls), want)
@@ -240,6 +277,11 @@ func RunTimed(args []string) int {
 	for i, p := range plans {
 		res[i], errs[i] = timed(p.name, p.off, p.b0, p.lens, p.gaps, p.toggl)
 	}
+	// protection switched off for two lines in the middle: the penalty must neither be charged nor forgotten
+	tg, tgErr := timedOff("toggled: on, off for two lines, on again", false, 8000*ms, []int{10, 10, 10, 10}, nil, false, map[int]bool{1: true, 2: true})
+	res = append(res, tg)
+	errs = append(errs, tgErr)
+	plans = append(plans, plan{name: "toggled"})
 	wg.Wait()
 	n, lines, heldLines := 0, 0, 0
 	var sample interface{}
